@@ -44,6 +44,8 @@ def faults_for(kind, auto=False):
         f.append(F('tpl_two_words', ANY))
     if kind in ('tplm', 'tpld'):
         f.append(F('match_wrong_trace_size', FIRST))
+    if kind == 'tpld':
+        f.append(F('tpld_undeclared_value', ANY))     # a hypothesis value that is no declared class: refused by the template lookup, after the first-call initialisation
     if auto:
         f += [F('auto_max_gt_255', FIRST), F('auto_negative', FIRST)]
     return f
@@ -85,6 +87,10 @@ def inject(ad, fault, rows, pos):
         args = (t.astype(['float16', '>i2', '>f4'][pos % 3]), d)
     elif name == 'tpl_two_words':
         args = (t, np.concatenate([d, d], axis=1))
+    elif name == 'tpld_undeclared_value':
+        d2 = d.astype('int32').copy()
+        d2.flat[-1] = 77
+        args = (t, d2)
     elif name == 'match_wrong_trace_size':
         args = (np.concatenate([t, t[:, :1]], axis=1), d)
     elif name == 'auto_max_gt_255':
@@ -384,6 +390,28 @@ def analysis_level(chk, rng):
                     if bad:
                         chk.violation(f'analysis:{kind}{mode}:{scenario}:{bad.split(" (")[0]}', {'property': 'C16', 'part': 'analysis', 'kind': kind, 'mode': mode, 'scenario': scenario, 'precision': prec, 'batch_size': bs,
                                                                                                'sizes': [n1, n2], 'clause': bad}, f'{kind}{mode} {scenario}: {bad}')
+        # a single batch of exactly 2^14 (and 2^15) traces through process / run: a valid batch is accepted whatever its size; were it refused, nothing of it may be counted
+        for nbig in (16384, 32768):
+            for kind in ('CPA', 'SNR'):
+                a, mk = pl.build(kind, 'attack', 'float32')
+                rs = np.random.RandomState(nbig % 1000 + len(kind))
+                ths, s_, v_, _ = pl.make_set(rs, nbig, 6, 2, 0)
+                scared.set_batch_size(nbig)
+                chk.count(('A', kind, 'attack', f'one batch of {nbig}', 'float32'), nontrivial=True)
+                chk.traces_validated += 1
+                before = int(a.processed_traces)
+                try:
+                    a.run(scared.Container(ths))
+                    if int(a.processed_traces) != nbig:
+                        chk.violation(f'analysis:{kind}attack:one batch of {nbig} traces:processed-trace count is that of the accepted batches only', {'property': 'C16', 'part': 'analysis', 'kind': kind, 'mode': 'attack', 'scenario': f'one batch of {nbig}', 'processed': int(a.processed_traces)},
+                                      f'{kind} attack, one batch of {nbig} traces: {int(a.processed_traces)} traces counted')
+                except Exception as ex:       # noqa
+                    if int(a.processed_traces) != before:
+                        chk.violation(f'analysis:{kind}attack:one batch of {nbig} traces:a refused batch is not counted', {'property': 'C16', 'part': 'analysis', 'kind': kind, 'mode': 'attack', 'scenario': f'one batch of {nbig}', 'error': repr(ex)[:200],
+                                                                                                                        'processed': int(a.processed_traces)}, f'{kind} attack: run() on one batch of {nbig} traces raised {type(ex).__name__} with {int(a.processed_traces)} traces counted')
+                    else:
+                        chk.violation(f'analysis:{kind}attack:one batch of {nbig} traces:a valid run is accepted', {'property': 'C16', 'part': 'analysis', 'kind': kind, 'mode': 'attack', 'scenario': f'one batch of {nbig}', 'error': repr(ex)[:200]},
+                                      f'{kind} attack: run() on one valid batch of {nbig} traces raised {type(ex).__name__}')
         chk.sample({'analysis_level_scenarios': ['bad-first', 'bad-between', 'bad-mid-container', 'bad-metadata-first']})
     finally:
         scared.Container._BATCH_SIZE = old
